@@ -83,7 +83,14 @@ func (r *validationResponseHandler) HandleValidationResponse(
 	if err == nil && req.Method == http.MethodGet && resp.StatusCode == http.StatusNotModified {
 		// RFC 9111 §4.3.3 Handling Validation Responses (304 Not Modified)
 		// RFC 9111 §4.3.4 Freshening Stored Responses upon Validation
+		// The age restarts from the 304: a stored Age field is only kept if
+		// the 304 carries a new one.
+		ctx.Stored.Data.Header.Del("Age")
 		updateStoredHeaders(ctx.Stored.Data, resp)
+		ctx.Stored.RequestedAt, ctx.Stored.ReceivedAt = ctx.Start, ctx.End
+		if f, ok := r.rs.(ResponseFreshener); ok && ctx.Stored.ID != "" {
+			_ = f.FreshenResponse(ctx.Stored)
+		}
 		CacheStatusRevalidated.ApplyTo(ctx.Stored.Data.Header)
 		r.l.LogCacheRevalidated(req, ctx.URLKey, ctx.ToMisc(nil))
 		return ctx.Stored.Data, nil
